@@ -2,7 +2,7 @@
 META = {
     "level": "exploration",
     "technique": "round-trip oracle on the real pack_children/_pack_contents/_unpack_contents (grid-less NodeMaker) and on real create/list of SDMF, MDMF and immutable directories; independent entry parser, rwcap decryptor, NFC and JSON comparison",
-    "text": "Random child sets (<= 50 entries; names with NFC-changing sequences, empty, ':' ',' NUL, astral, very long; nested JSON metadata with floats, huge ints, unicode, empty containers; caps of every kind incl. alleged-prefixed and unknown future caps in rw/ro/both slots) are packed by the real code for SDMF/MDMF writeable directories and unpacked by writeable and read-only directory nodes: the result must equal {NFC(name): (rw cap, ro cap, metadata)} (read-only view: no rw caps); names that collide after normalisation must yield exactly one of the colliding inputs. The packed bytes are also read by an independent parser (stored names are NFC UTF-8, metadata is JSON equal to the input, the rwcap slot decrypts under the writekey to the write-cap). Directory bytes written by an independent legacy writer with un-normalised names must unpack to normalised names. Immutable packing must raise MustBeDeepImmutableError iff the model says some child is mutable / write-capable / unknown-with-rw, and otherwise round-trip through an immutable directory node with only immutable children. Edits of an unpacked (cached) child dict must show after re-packing. A grid part repeats the round trip through create_dirnode/set_children/list and create_immutable_dirnode on real servers.",
+    "text": "Random child sets (<= 50 entries; names with NFC-changing sequences, empty, ':' ',' NUL, astral, very long; nested JSON metadata with floats, huge ints, unicode, empty containers; caps of every kind incl. alleged-prefixed and unknown future caps in rw/ro/both slots) are packed by the real code for SDMF/MDMF writeable directories and unpacked by writeable and read-only directory nodes: the result must equal {NFC(name): (rw cap, ro cap, metadata)} (read-only view: no rw caps); names that collide after normalisation must yield exactly one of the colliding inputs. The packed bytes are also read by an independent parser (stored names are NFC UTF-8, metadata is JSON equal to the input, the rwcap slot decrypts under the writekey to the write-cap). Directory bytes written by an independent legacy writer with un-normalised names must unpack to normalised names. Immutable packing must raise MustBeDeepImmutableError iff the model says some child is mutable / write-capable / unknown-with-rw, and otherwise round-trip through an immutable directory node with only immutable children. Edits of an unpacked (cached) child dict must show after re-packing. The result of one directory's unpack / list() is also handed, as is, to the packer of another directory and to create_dirnode / create_subdirectory(initial_children) / create_immutable_dirnode (clone and snapshot must equal the source; snapshot refused iff a child is mutable). Every public entry point that takes a name (set_nodes, set_children, set_node, set_uri, add_file, create_subdirectory, move_child_to) is called with a non-NFC spelling of an existing NFC name: overwrite=False must be refused, overwrite=True must replace exactly that entry, the stored bytes hold one NFC entry per name. A grid part repeats the round trip through create_dirnode/set_children/list and create_immutable_dirnode on real servers.",
     "note": "Trusts unicodedata, json and the `cryptography` AES primitive as second opinions; verifier caps and nodes carrying a recorded error are outside the input space (pack must refuse the latter).",
 }
 LEVEL = "exploration"
@@ -286,6 +286,35 @@ def run(ck):
                 ck.violation("unpack-raised-on-own-packing", "%s view: _unpack_contents: %s: %s" % (view, type(e).__name__, str(e)[:200]), wit)
                 continue
             compare(unpacked[view], kids, view, wit)
+        # the result of one directory's unpack (what list() returns) handed over as the children of ANOTHER directory
+        if "writer" in unpacked:
+            src = unpacked["writer"]
+            ofam = crng.choice(["DIR2", "DIR2-MDMF"])
+            oinfo = D.CapInfo(D.fake_cap(crng, ofam))
+            o_w, o_r = nm.create_from_cap(oinfo.string), nm.create_from_cap(oinfo.readonly)
+            ck.mon("clone-from-listing")
+            ck.hit("listing-reused-as-children")
+            try:
+                cdata = pack_children(src, oinfo.writekey)
+                for view, odn in (("writer", o_w), ("reader", o_r)):
+                    cres = odn._unpack_contents(cdata)
+                    prob = _clone_diff(src, cres, view)
+                    if prob:
+                        ck.violation("clone-of-listing-differs-from-source", "children taken from a %s listing and packed for a new %s, %s view: %s"
+                                     % (fam, ofam, view, prob), wit)
+            except Exception as e:  # noqa
+                ck.violation("clone-of-listing-differs-from-source", "children taken from a listing: %s: %s" % (type(e).__name__, str(e)[:200]), wit)
+            grp_ = group(kids)
+            if all(c_.imm_ok for cs in grp_.values() for c_ in cs):
+                ck.hit("listing-reused-as-immutable-children")
+                try:
+                    sdata = pack_children(src, None, deep_immutable=True)
+                    sres = nm.create_from_cap(D.fake_cap(crng, "DIR2-CHK"))._unpack_contents(sdata)
+                    if set(sres) - set(src) or any(b"x-tahoe-future-test-" not in (src[n_][0].get_readonly_uri() or b"") for n_ in set(src) - set(sres)):
+                        ck.violation("clone-of-listing-differs-from-source", "immutable snapshot of a listing: names %r vs %r" % (sorted(sres)[:4], sorted(src)[:4]), wit)
+                except Exception as e:  # noqa
+                    ck.violation("clone-of-listing-differs-from-source", "immutable snapshot of a listing of immutable children: %s: %s"
+                                 % (type(e).__name__, str(e)[:200]), wit)
         # re-pack through the node (cached entries) is byte-identical; edits of the unpacked dict show up
         if "writer" in unpacked:
             u = unpacked["writer"]
@@ -447,10 +476,11 @@ def run(ck):
     env.set_thread_sync(False)
     ck.exhaustive = False
     ck.require_monitor("roundtrip-writer", "roundtrip-reader", "roundtrip-immutable", "stored-bytes-oracle", "immutable-refusal-oracle",
-                       "roundtrip-after-edit", "grid-roundtrip")
+                       "roundtrip-after-edit", "grid-roundtrip", "clone-from-listing", "nfc-unstable-name-at-entry-point")
     ck.require_reach("name-changes-under-nfc", "empty-name", "name-with-delimiter-or-nul", "very-long-name",
                      "names-collide-after-normalisation", "immutable-pack-refused", "immutable-pack-accepted",
-                     "legacy-unnormalised-name", "child:known", "child:unknown", "child:verifier", "grid-immutable-refused")
+                     "legacy-unnormalised-name", "child:known", "child:unknown", "child:verifier", "grid-immutable-refused",
+                     "listing-reused-as-children", "listing-reused-as-immutable-children", "entry-point:set_nodes")
 
 
 def grid_case(ck, rng, caseno, mkchildren, compare, independent_bytes_oracle):
@@ -532,10 +562,197 @@ def grid_case(ck, rng, caseno, mkchildren, compare, independent_bytes_oracle):
                 ck.hit("grid-immutable-refused")
             else:
                 ck.violation("immutable-directory-accepts-mutable-child", "create_immutable_dirnode with %s: %s" % (bad[0].desc, st), wit)
+        try:
+            clone_from_listing(ck, g, c, reader, rng, dn, wit, "mixed children")
+            if ikids:
+                src2 = D.ok(g, c.create_dirnode({nx: (c_.node, c_.md) for nx, c_ in ikids.items()}, version=rng.choice([D.SDMF, D.MDMF])),
+                            "create_dirnode(immutable children)")
+                clone_from_listing(ck, g, c, reader, rng, src2, wit, "immutable children only")
+            nfc_entry_points(ck, g, c, reader, rng, wit)
+        except D.OpFailed as e:
+            ck.violation("directory-operation-failed-on-honest-grid", str(e)[:300], wit)
         ck.case("grid", key=("D", caseno, version, tuple(sorted(kids))), nontrivial=bool(kids),
                 sample={"version": wit["version"], "n": len(kids)})
     finally:
         g.close()
+
+
+def _clone_diff(src, res, view):
+    """src / res: name -> (node, metadata).  None when res is a faithful copy of src (read-only view: no write caps)."""
+    if set(src) != set(res):
+        return "names %r vs source %r" % (sorted(set(res) - set(src))[:3], sorted(set(src) - set(res))[:3])
+    for n_, (node, md) in src.items():
+        rw, ro = D.node_caps(node)
+        rw2, ro2 = D.node_caps(res[n_][0])
+        if view != "writer":
+            rw = None
+        if (rw2, ro2) != (rw, ro):
+            return "child %r reads back as rw=%r ro=%r (%s), source rw=%r ro=%r" % (
+                n_, D.show(rw2)[:50] if rw2 else None, D.show(ro2)[:50] if ro2 else None, type(res[n_][0]).__name__,
+                D.show(rw)[:50] if rw else None, D.show(ro)[:50] if ro else None)
+        if not D.json_equal(md, res[n_][1]):
+            return "metadata of %r differs" % (n_,)
+    return None
+
+
+def clone_from_listing(ck, g, c, reader, rng, src_dn, wit, label):
+    """dirnode.list() of one directory is handed, as is, to the calls that create a new directory (clone / snapshot)."""
+    from allmydata.interfaces import MustBeDeepImmutableError
+    listing = D.ok(g, src_dn.list(), "list source")
+    ck.hit("listing-reused-as-children")
+    how = rng.choice(["create_dirnode", "create_subdirectory"])
+    if how == "create_dirnode":
+        clone = D.ok(g, c.create_dirnode(listing, version=rng.choice([D.SDMF, D.MDMF])), "create_dirnode(listing)")
+    else:
+        parent = D.ok(g, c.create_dirnode(), "create_dirnode")
+        clone = D.ok(g, parent.create_subdirectory("clone", listing, mutable_version=rng.choice([D.SDMF, D.MDMF])), "create_subdirectory(listing)")
+    info = D.CapInfo(clone.get_uri())
+    w = dict(wit, source=label, how=how)
+    for view, cap in (("writer", clone.get_uri()), ("reader", info.readonly)):
+        ck.mon("clone-from-listing")
+        st, res = g.wait(reader.create_node_from_uri(cap).list())
+        if st != "ok":
+            ck.violation("clone-of-listing-differs-from-source", "%s(<list() of another directory>): listing the clone (%s view) fails: %s"
+                         % (how, view, D.fdesc(res)), w)
+            continue
+        prob = _clone_diff(listing, res, view)
+        if prob:
+            ck.violation("clone-of-listing-differs-from-source", "%s(<list() of another directory>), %s view: %s" % (how, view, prob), w)
+    # immutable snapshot of the same listing
+    def immutable_ok(node):
+        if node.is_unknown():
+            return node.get_write_uri() is None
+        return not D.CapInfo(node.get_uri()).is_mutable
+    all_imm = all(immutable_ok(n_) for (n_, _md) in listing.values())
+    ck.mon("immutable-refusal-oracle")
+    try:
+        st, res = g.wait(c.create_immutable_dirnode(listing))
+    except MustBeDeepImmutableError:
+        st, res = "refused", None
+    except Exception as e:   # noqa
+        st, res = "raised " + type(e).__name__, None
+    if st == "err" and res.check(MustBeDeepImmutableError):
+        st = "refused"
+    if not all_imm:
+        if st == "refused":
+            ck.hit("grid-immutable-refused")
+        else:
+            ck.violation("immutable-directory-accepts-mutable-child", "create_immutable_dirnode(<list() holding mutable children>): %s" % st, w)
+        return
+    if st != "ok":
+        ck.violation("immutable-directory-refuses-immutable-children", "create_immutable_dirnode(<list() of immutable children>): %s" % st, w)
+        return
+    ck.hit("listing-reused-as-immutable-children")
+    st, res2 = g.wait(reader.create_node_from_uri(res.get_uri()).list())
+    if st != "ok":
+        ck.violation("clone-of-listing-differs-from-source", "immutable snapshot of a listing cannot be listed: %s" % D.fdesc(res2), w)
+        return
+    lost = [n_ for n_ in listing if n_ not in res2 and b"x-tahoe-future-test-" not in (listing[n_][0].get_readonly_uri() or b"")]
+    if lost or set(res2) - set(listing):
+        ck.violation("clone-of-listing-differs-from-source", "immutable snapshot of a listing: lost %r, invented %r" % (lost[:3], sorted(set(res2) - set(listing))[:3]), w)
+    for n_, (node, md) in res2.items():
+        a, b = M.strip_alleged(node.get_readonly_uri() or b"")[1], M.strip_alleged(listing[n_][0].get_readonly_uri() or b"")[1]
+        if a != b or node.get_write_uri() is not None or not D.json_equal(md, listing[n_][1]):
+            ck.violation("clone-of-listing-differs-from-source", "immutable snapshot: child %r differs from the source entry" % (n_,), w)
+            break
+
+
+NFC_PAIRS = [("\u00e9", "e\u0301"), ("\u00c5", "A\u030a"), ("\u00c5", "\u212b"), ("\uac00", "\u1100\u1161"), ("\u00f1", "n\u0303"),
+             ("\u1e69", "s\u0323\u0307"), ("\u03a9", "\u2126")]
+ENTRY_POINTS = ["set_nodes", "set_children", "set_node", "set_uri", "add_file", "create_subdirectory", "move_child_to"]
+
+
+def nfc_entry_points(ck, g, c, reader, rng, wit):
+    """Every public call that takes a child name is given a non-NFC spelling of a name that already exists (stored NFC)."""
+    from allmydata.dirnode import ONLY_FILES  # noqa
+    from allmydata.interfaces import ExistingChildError
+    from allmydata.immutable.upload import Data
+    pairs = list(NFC_PAIRS)
+    rng.shuffle(pairs)
+    names = {}
+    for nfc_, other in pairs:
+        names.setdefault(nfc_, other)
+    init = {}
+    for k, nfc_ in enumerate(sorted(names)):
+        init[nfc_] = (c.create_node_from_uri(D.lit_cap(b"old-%d" % k)), {"old": k})
+    version = rng.choice([D.SDMF, D.MDMF])
+    T = D.ok(g, c.create_dirnode(init, version=version), "create_dirnode")
+    S = D.ok(g, c.create_dirnode({"src%d" % k: (c.create_node_from_uri(D.lit_cap(b"moved-%d" % k)), {}) for k in range(3)}), "create_dirnode")
+    tinfo = D.CapInfo(T.get_uri())
+    model = {n_: (None, D.lit_cap(b"old-%d" % k)) for k, n_ in enumerate(sorted(names))}
+    eps = ["set_nodes"] + rng.sample(ENTRY_POINTS[1:], 3)
+    rng.shuffle(eps)
+    moved = [0]
+
+    def call(ep, namex, ow, tagb):
+        newcap = D.lit_cap(b"new-" + tagb)
+        node = c.create_node_from_uri(newcap)
+        if ep == "set_nodes":
+            return T.set_nodes({namex: (node, {})}, overwrite=ow), (None, newcap)
+        if ep == "set_children":
+            return T.set_children({namex: (None, newcap, {})}, overwrite=ow), (None, newcap)
+        if ep == "set_node":
+            return T.set_node(namex, node, {}, overwrite=ow), (None, newcap)
+        if ep == "set_uri":
+            return T.set_uri(namex, None, newcap, {}, overwrite=ow), (None, newcap)
+        if ep == "add_file":
+            return T.add_file(namex, Data(b"new-" + tagb, convergence=b""), {}, overwrite=ow), (None, newcap)
+        if ep == "create_subdirectory":
+            return T.create_subdirectory(namex, overwrite=ow), "LEARN"
+        k = moved[0]
+        return S.move_child_to("src%d" % k, T, namex, overwrite=ow), (None, D.lit_cap(b"moved-%d" % k))
+
+    def judge_listing(what, ep):
+        res = D.ok(g, reader.create_node_from_uri(tinfo.string).list(), "list")
+        w = dict(wit, entry_point=ep)
+        if set(res) != set(model):
+            ck.violation("equivalent-name-not-recognised-at-entry-point", "%s: listing has %r, expected %r" % (
+                what, sorted(set(res) ^ set(model))[:4], "the same names as before"), w)
+            return
+        for n_, caps in model.items():
+            if D.node_caps(res[n_][0]) != caps:
+                ck.violation("equivalent-name-not-recognised-at-entry-point", "%s: entry %r holds rw=%r ro=%r, expected %r" % (
+                    what, n_, D.show(res[n_][0].get_write_uri()), D.show(res[n_][0].get_readonly_uri()), D.show(caps[1])), w)
+                return
+        plain = D.read_backing_bytes(g, reader, tinfo.readonly)
+        stored = [e.name_utf8.decode("utf-8") for e in D.parse_dir(plain)]
+        if len(stored) != len(model) or any(D.nfc(x) != x for x in stored):
+            ck.violation("equivalent-name-not-recognised-at-entry-point", "%s: the stored directory holds %d entries for %d names (un-normalised: %r)"
+                         % (what, len(stored), len(model), [x for x in stored if D.nfc(x) != x][:3]), w)
+
+    for j, ep in enumerate(eps):
+        nfc_ = sorted(names)[j % len(names)]
+        namex = names[nfc_]
+        ck.hit("entry-point:" + ep)
+        # (1) no-overwrite must recognise the existing entry
+        ck.mon("nfc-unstable-name-at-entry-point")
+        try:
+            d, caps = call(ep, namex, False, b"a%d" % j)
+            st, res = g.wait(d)
+        except ExistingChildError:
+            st, res = "refused", None
+        if st == "ok":
+            ck.violation("equivalent-name-not-recognised-at-entry-point",
+                         "%s(%r, overwrite=False) succeeds although %r exists" % (ep, namex, nfc_), dict(wit, entry_point=ep))
+            if ep == "move_child_to":
+                moved[0] += 1
+        elif st == "err" and not res.check(ExistingChildError):
+            ck.observe("entry-point-refusal-" + res.type.__name__)
+        judge_listing("after the refused %s(%r, overwrite=False)" % (ep, namex), ep)
+        # (2) overwrite=True replaces exactly that entry
+        ck.mon("nfc-unstable-name-at-entry-point")
+        d, caps = call(ep, namex, True, b"b%d" % j)
+        st, res = g.wait(d)
+        if st != "ok":
+            ck.violation("directory-operation-failed-on-honest-grid", "%s(%r, overwrite=True): %s" % (ep, namex, D.fdesc(res)), dict(wit, entry_point=ep))
+            continue
+        if ep == "move_child_to":
+            moved[0] += 1
+        if caps == "LEARN":
+            ci = D.CapInfo(res.get_uri())
+            caps = (res.get_uri(), ci.readonly)
+        model[nfc_] = caps
+        judge_listing("after %s(%r, overwrite=True)" % (ep, namex), ep)
 
 
 def _short(x):
@@ -554,3 +771,5 @@ def _short(x):
 #   c19-aux-cache-not-cleared       AuxValueDict.__setitem__ keeps the cached entry    -> edit-of-unpacked-children-not-stored
 #   c19-ro-prefix-always-stripped   strip_prefix_for_ro strips imm. in mutable dirs    -> capability-changed-in-roundtrip
 #   c19-rw-uri-lost-for-unknown     _pack stores no rw cap for unknown nodes           -> capability-changed-in-roundtrip
+#   seeded/C19-3   Adder normalises only in set_node(); set_nodes() bypasses it   -> equivalent-name-not-recognised-at-entry-point
+#   seeded/C19-4   pack_children reuses another directory's cached packed entries -> clone-of-listing-differs-from-source
